@@ -73,3 +73,17 @@ Definition mism_verdict (cases : list vcase) : list nat := mism_by agree_verdict
 Record pcase := { p_m : list bool; p_E : list edge; p_obs : list bool }.
 Definition agree_prop (c : pcase) : bool := option_eqb (list_eqb Bool.eqb) (propagate_judgements (p_E c) (p_m c)) (Some (p_obs c)).
 Definition mism_prop (cases : list pcase) : list nat := mism_by agree_prop cases.
+
+(* ---- C10: Jacobian ------------------------------------------------------------------------- *)
+From OdeVerif Require Import Model.Jacobian.
+
+Definition qc_scale (e : Z) (c : Qc) : Qc := (Q2Qc (inject_Z e) * c)%Qc.
+
+Record jcase := { j_n : nat; j_shapes : list (shape Qc); j_rho : list (atom * Qc); j_keep : list bool; j_obs : list (list Qc) }.
+
+Definition model_jac (c : jcase) : list (list Qc) :=
+  let sys := from_shapes Qc (Q2Qc 1) (fun _ => []) par_std (j_n c) (j_shapes c) in
+  let s := sub_system Qc (j_n c) sys (fun j => nth j (j_keep c) false) in
+  map (fun r => map (qevp (j_rho c)) (jac_row Qc qc_scale (sx s) r)) (srows s).
+Definition agree_jac (c : jcase) : bool := list_eqb (list_eqb qc_eqb) (model_jac c) (j_obs c).
+Definition mism_jac (cases : list jcase) : list nat := mism_by agree_jac cases.
